@@ -236,12 +236,14 @@ type simQueue struct {
 	mu            sync.Mutex     // the read-repair goroutine delivers concurrently with the client operation
 }
 
-func (q *simQueue) Name() string                              { return "sim-queue" }
-func (q *simQueue) Register(bus.Topic, schema.EventHandler)   {}
-func (q *simQueue) OnAddOrUpdate(schema.Metadata)             {}
-func (q *simQueue) GracefulStop()                             {}
-func (q *simQueue) HealthyNodes() []string                    { return q.nodes }
-func (q *simQueue) isDown(topic bus.Topic, node string) bool  { return q.unreachable[topic.String()][node] }
+func (q *simQueue) Name() string                            { return "sim-queue" }
+func (q *simQueue) Register(bus.Topic, schema.EventHandler) {}
+func (q *simQueue) OnAddOrUpdate(schema.Metadata)           {}
+func (q *simQueue) GracefulStop()                           {}
+func (q *simQueue) HealthyNodes() []string                  { return q.nodes }
+func (q *simQueue) isDown(topic bus.Topic, node string) bool {
+	return q.unreachable[topic.String()][node]
+}
 
 // deliver emulates one request/response over the wire: the request is proto-encoded and decoded into the
 // type the sub server would produce, the real listener runs, the reply is encoded/decoded the way
